@@ -12,7 +12,7 @@ trap 'git -C /repo worktree remove --force "$wt"; rm -rf "$out"' EXIT
 git -C "$wt" apply "$patch" || { echo "patch does not apply"; exit 3; }
 args=(-prop "$prop" -tier "$tier")
 [ -n "$only" ] && args+=(-only "$only")
-VERIF_REPO=$wt VERIF_OUT=$out timeout ${MUTANT_TIMEOUT:-3600} /verif/bin/vcheck "${args[@]}" > "$out.log" 2>&1; e=$?
+VERIF_REPO=$wt VERIF_OUT=$out timeout ${MUTANT_TIMEOUT:-3600} ${VCHECK:-/verif/bin/vcheck} "${args[@]}" > "$out.log" 2>&1; e=$?
 grep -E "^VIOLATION|^INCONCLUSIVE|^VACUOUS|^OK|^KNOWN|counterexample:" "$out.log" | cut -c1-300 | head -12
 echo "exit=$e patch=$1 prop=$prop log=$out.log"
 exit $e
